@@ -153,6 +153,14 @@ def body(ctx: H.BaseCtx):
                     ctx.expect_exception(exc, [numpoly.FeatureNotSupported], "%s with a non-constant divisor" % name)
                 elif exc is not None and not isinstance(exc, (ZeroDivisionError,)):
                     pass  # constant divisor 1: anything numpy does is fine here
+        elif fn == "isclose":
+            kw = par.get("kw", {})
+            want = numpy.isclose(x, y, **kw) if not ctx.symbolic else __import__("nv.stubs", fromlist=["PROXY"]).PROXY.isclose(x, y, **kw)
+            _cmp_arrays(ctx, numpoly.isclose(p, q, **kw), want, "isclose%s" % kw)
+            _cmp_arrays(ctx, numpy.isclose(p, y, **kw), want, "numpy.isclose(poly, array)%s" % kw)
+            wa = bool(numpy.all(want))
+            if bool(numpoly.allclose(p, q, **kw)) != wa:
+                ctx.fail("value", "allclose%s is %s, numpy gives %s" % (kw, not wa, wa))
         elif fn == "diff":
             _cmp_arrays(ctx, numpoly.diff(p, n=par.get("n", 1), axis=par.get("axis", -1)), numpy.diff(x, n=par.get("n", 1), axis=par.get("axis", -1)), "diff", want_poly=True)
             _cmp_arrays(ctx, numpoly.ediff1d(p), numpy.ediff1d(x), "ediff1d", want_poly=True)
@@ -221,6 +229,7 @@ def gen_cases(tier: str, seed: int) -> List[Dict]:
         add("intdiv", [arr("a", shape, 2, ties=False), arr("b", shape if rng.random() < 0.5 else (), 1, ties=False)])
         add("truediv", [arr("a", shape, 2, ties=False), arr("b", (), 1, ties=False)])
         add("nonconst-divisor", [arr("a", shape, 1), arr("b", (), 1)])
+        add("isclose", [arr("a", shape, 2, ties=False), arr("b", shape, 2, ties=False)], {"kw": rng.choice([{}, {"rtol": 0.25, "atol": 0}, {"rtol": 0, "atol": 2}])})
         for ax in range(nd):
             add("diff", [arr("a", shape, A)], {"axis": ax, "n": rng.choice([1, 2])})
     return cases
@@ -232,8 +241,8 @@ def main(argv=None) -> int:
         rule="one case = (function, axis/keepdims arguments, array structure with repeated values); non-trivial = >= 2 feasible paths (order / tie / zero forks)",
         bounds={"shapes": "1-d..3-d, <= 8 elements", "values": "integer atoms (<= 3 quick / 5 thorough per array) + literals, repeated values for ties", "axes": "all axes, axis pairs, keepdims",
                 "claimed": "sum prod cumsum mean diff ediff1d amax amin argmax argmin max/min methods, six comparisons, maximum/minimum, any all count_nonzero nonzero logical_and/or, "
-                "floor_divide remainder divmod true_divide on integer constants, refusal of non-constant divisors",
-                "outside": "rounding functions (around ceil floor rint round), isclose/allclose, float division rounding, exact result dtypes beyond bool / integer kind, shape functions (C09)"},
+                "floor_divide remainder divmod true_divide on integer constants, refusal of non-constant divisors, isclose/allclose on finite integer values",
+                "outside": "rounding functions (around ceil floor rint round), NaN/inf handling of isclose/allclose, float division rounding, exact result dtypes beyond bool / integer kind, shape functions (C09)"},
         functions=["numpoly.sum/prod/cumsum/mean/diff/ediff1d", "amax", "amin", "argmax", "argmin", "sortable_proxy", "less..not_equal", "maximum", "minimum", "any", "all", "count_nonzero", "nonzero",
                    "logical_and", "logical_or", "floor_divide", "remainder", "divmod", "true_divide"],
         assumptions=["reference = numpy's own function on the object array of the same symbolic values (numpy's object loops = numpy's documented semantics)",
